@@ -78,7 +78,20 @@ def _p(*steps): return ('a', tuple(steps))
 PATHS2 = [PA, PC, _p(('key', 'b'), ('idx', '0')), _p(('key', 'b'), ('idx', '1')), _p(('key', 'b'), ('idx', '0'), ('key', 'c')), _p(('key', 'b'), ('idx', '0'), ('key', 'd')),
           _p(('key', 'b'), ('idx', '1'), ('key', 'c')), _p(('key', 'b'), ('key', 'c')), _p(('key', 'b'), ('key', 'd'))]
 TESTS2 = [('=', False, ('num', 1)), ('=', False, ('num', 2)), ('=', True, ('num', 1)), ('!=', False, ('num', 2)), ('<', False, ('num', 2)), ('IN', False, ('set', (('num', 1), ('num', 2)))),
-          ('IN', True, ('set', (('num', 1), ('num', 2)))), ('>=', True, ('num', 2))]
+          ('IN', True, ('set', (('num', 1), ('num', 2)))), ('>=', True, ('num', 2)),
+          # every constant kind, incl. kinds whose text coincides ('ab' as string / hex, 1 as integer / float / string)
+          ('=', False, ('str', 'ab')), ('=', False, ('hex', 'ab')), ('=', False, ('bin', 'YWI=')), ('=', False, ('str', '1')), ('=', False, ('num', 1.0)), ('=', False, ('bool', True)),
+          ('=', False, ('bool', False)), ('=', False, ('ts', '2020-01-01T00:00:00Z')), ('=', False, ('ts', '2020-01-01T00:00:00.000Z')), ('=', False, ('str', '2020-01-01T00:00:00Z')),
+          ('IN', False, ('set', (('str', 'ab'), ('str', '1'))))]
+
+
+def constants_of(t):
+    if not isinstance(t, tuple): return set()
+    if t and t[0] == 'CMP': return set(t[4][1]) if t[4][0] == 'set' else {t[4]}
+    out = set()
+    for x in t:
+        if isinstance(x, tuple): out |= constants_of(x)
+    return out
 
 
 def leaf_pool(): return [('CMP', path, op, neg, rhs) for path in PATHS2 for op, neg, rhs in TESTS2]
